@@ -381,6 +381,20 @@ func opMutate(g *G, name string) (interface{}, []uint64, int, interface{}) {
 				}
 				regMode = "matching-in-genome-reenabled"
 			}
+			if name == "mutAddLink" && g.chance(0.6) {
+				// SEQUENCE on one Genome object within a generation: add a link, then toggle other genes off so that the
+				// SAME node pair now counts as a link of the other kind (recurrent <-> forward), then add a link again
+				// while the first link's record is still listed: the record must not be reused for the other kind
+				n := 0
+				for _, x := range gn.Genes {
+					if x.IsEnabled && n < 2 && g.chance(0.35) {
+						x.IsEnabled = false
+						n++
+					}
+				}
+				opts.RecurOnlyProb = []float64{0, 0.5, 1}[g.intn(3)]
+				regMode = "matching-in-genome-toggled"
+			}
 		}
 	}
 	if name == "mutAddLink" || name == "mutAddNode" {
